@@ -36,7 +36,10 @@ SELFTESTS = [R.selftest, refsmiles.selftest, GM.selftest]
 SENSITIVE = ["[Xe-2][Branch1][C][F][Branch1][C][F][Branch1][C][F][Branch1][C][F][F]", "[C][#C][=N][#S][=P][O]", "[CH4][C]", "[C][CH3][C]",
              "[N+1][=C][Fe+3][#C][Cl][C]", "[S][=Branch1][C][=O][=Branch1][C][=O][O]", "[P][Branch1][C][F][Branch1][C][F][Branch1][C][F][Branch1][C][F][F]",
              "[Cl][Branch1][C][O][=O]", "[O-1][=C][O+1][=C][C-1]", "[C][C][C][Ring1][Ring1][=Ring1][Ring1]", "[B-1][Branch1][C][F][Branch1][C][F][Branch1][C][F][F]",
-             "[=N][#N][=N+1][=O]", "[Fe][=Branch1][C][=O][#C][=O]", "[H][H]", "[NH1][=C][NH2+1][C@@H1][Branch1][C][F][Cl]", "[C][.][C]", "[C][Xx]", "[C][F][Xx]"]
+             "[=N][#N][=N+1][=O]", "[Fe][=Branch1][C][=O][#C][=O]", "[H][H]", "[NH1][=C][NH2+1][C@@H1][Branch1][C][F][Cl]", "[C][.][C]", "[C][Xx]", "[C][F][Xx]",
+             # more than 99 ring bonds: ring-number reuse in the writer must not carry state from call to call
+             "[C][C][C][Ring1][Ring1]" * 103, "[C][C][Ring1][C]" + "[C][C][C][Ring1][Ring1]" * 101 + "[C][Ring3][C][Ring1][=Branch1]",
+             "[C][C][C][Ring1][Ring1]" * 3]
 
 _POOL = {}
 
